@@ -388,6 +388,7 @@ def hdecide(c):
   return E.hdecide(lift_bool(c))
 
 
+def define(name, c): _E().define(name, c)
 def assume(c): _E().assume(c)
 def check(name, c): _E().check(name, c)
 def cover(label): _E().cover(label)
